@@ -5,6 +5,7 @@ the exporter alone), then each importer's table against the source snapshot.
 """
 import gzip
 import io
+import json
 import os
 
 import numpy as np
@@ -34,7 +35,8 @@ ASSUMPTIONS = [
     'parseable as a number',
 ]
 ANCHORS = ['Table.delimited_self', 'Table._extract_data_from_tsv', 'Table.from_tsv', '_convert', 'parse_biom_table']
-REQUIRED = ['export_asked_for_absent_metadata', 'exported_again_after_change', 'export_to_tsv', 'export_str', 'export_direct_io',
+REQUIRED = ['export_legacy_function', 'export_other_column_name',
+            'import_legacy_convert_table_to_biom', 'export_asked_for_absent_metadata', 'exported_again_after_change', 'export_to_tsv', 'export_str', 'export_direct_io',
             'export_cli', 'import_from_tsv_lines', 'import_from_tsv_handle',
             'import_load_table', 'import_load_table_gz',
             'import_parse_table_lines', 'import_cli_json', 'import_cli_hdf5',
@@ -106,7 +108,12 @@ def run_case(ctx, index):
         ctx.count('layout_unsorted_seen')
     if st.startswith('csc'):
         ctx.count('layout_csc_seen')
-    exporter = r.choice(['to_tsv', 'str', 'direct_io', 'to_tsv'])
+    exporter = r.choice(['to_tsv', 'str', 'direct_io', 'to_tsv', 'to_tsv',
+                         'str', 'direct_io', 'to_tsv', 'legacy-function'])
+    colname = '#OTU ID'
+    if exporter in ('to_tsv', 'direct_io') and r.random() < .25:
+        colname = r.choice(['#FeatureID', '#Feature ID', '#NAME', '#ID é',
+                            '#OTU ID'])
     if index % 8 == 3:
         exporter = 'cli'
     if exporter == 'str':
@@ -130,9 +137,28 @@ def run_case(ctx, index):
         ctx.count('export_asked_for_absent_metadata')
     files = []
     try:
+        if colname != '#OTU ID':
+            kw['observation_column_name'] = colname
+            desc['observation_column_name'] = colname
+            ctx.count('export_other_column_name')
         if exporter == 'to_tsv':
             text = t.to_tsv(**kw)
             ctx.count('export_to_tsv')
+        elif exporter == 'legacy-function':
+            # biom.parse.convert_biom_to_table: file in, classic text out
+            inp = ctx.path('c03leg%d.biom' % index)
+            files.append(inp)
+            with open(inp, 'w', encoding='utf-8') as f:
+                f.write(t.to_json('vm'))
+            from biom.parse import convert_biom_to_table
+            if with_md_export:
+                text = convert_biom_to_table(
+                    inp, header_key='taxonomy', header_value='taxonomy',
+                    md_format=None if r.random() < .5 else kw[
+                        'metadata_formatter'])
+            else:
+                text = convert_biom_to_table(inp)
+            ctx.count('export_legacy_function')
         elif exporter == 'str':
             text = str(t)
             ctx.count('export_str')
@@ -210,6 +236,10 @@ def run_case(ctx, index):
             ('load_table_gz', 'raw', lambda: biom.load_table(gz)),
             ('parse_table_lines', 'raw', lambda: biom.parse_table(
                 [ln + '\n' for ln in lines])),
+            ('legacy_convert_table_to_biom', 'list',
+             lambda: biom.Table.from_json(json.loads(
+                 biom.parse.convert_table_to_biom(list(lines), None, None,
+                                                  proc)))),
         ]
         if index % 8 in (3, 5):
             fmt = 'json' if index % 16 < 8 else 'hdf5'
@@ -264,7 +294,7 @@ def run_case(ctx, index):
         # ------------------------------- export again after a change
         # a table that has been exported and is then changed in place
         # exports what it holds now
-        if exporter != 'cli' and spec.D.size:
+        if exporter not in ('cli', 'legacy-function') and spec.D.size:
             change = r.choice(['negate-observation', 'negate-sample',
                                'rename-samples', 'rename-observations',
                                'presence-absence'])
